@@ -28,6 +28,12 @@ def scenarios(quick):
             out.append(scenario([to(L), hg(1, 2)], [[a, b]], [start(1)]))
             out.append(scenario([bh("b", 1, wait=4), to(L)], [[a], [b]], [start(1), start(2, at=1)]))
             out.append(scenario([to(L), bh("b", 1, wait=2 * L)], [[a], [b]], [start(1), start(2, at=1)]))
+    for d2 in (2, 4):
+        for ct in (L + 2, L + 3, L + 5):
+            fns = [[fn(L + 1, "R0", "E1", True), fn(d2 + 3, "R1", None, True), fn(1, "R1")]]
+            out.append(scenario([retry(2, dly=1), to(L)], fns, [start(1), env("CtxCancel", ct, 1)]))
+            out.append(scenario([retry(2, dly=1), to(L)], fns, [start(1, 0, True), env("AsyncCancel", ct, 1)]))
+            out.append(scenario([fb(), retry(2), to(L)], fns, [start(1, 0, True), env("AsyncCancel", ct, 1, gap=1)]))
     return out
 
 
